@@ -728,7 +728,7 @@ package compiler
 // object that keeps its nullability and default -, other kinds keep their kind and arrays, maps, unions
 // and structs are handed to their handlers; nested results are stored in place.
 //@ func (*AnonymousStructsToNamed).processStruct
-//@   property C06
+//@   property C06 C10
 //@   traced
 //@   requires pass != nil && def.Kind == ast.KindStruct
 //@   ensures  named: result.Kind == ast.KindRef && result.Ref != nil && result.Ref.ReferredPkg == pkg && result.Ref.ReferredType == parentName && result.Nullable == def.Nullable && result.Default == def.Default
@@ -880,3 +880,16 @@ package compiler
 //@   modifies nothing
 //@   ensures  fresh: fresh(result)
 //@   ensures  concat: len(result) == len(passes) + len(other) && (forall i: int :: 0 <= i && i < len(passes) ==> result[i] == passes[i]) && (forall i: int :: 0 <= i && i < len(other) ==> result[len(passes) + i] == other[i])
+//
+// C10 - disjunction_with_constant_to_default moves a constant into a default: `T | <constant of T>` (two
+// scalar branches of the same scalar kind, exactly one of them concrete, in EITHER order) comes back as the
+// non-constant branch whose Default is the constant's value; every other union comes back as it was.
+//@ spec constantAndType(c, t) = c.Kind == ast.KindScalar && t.Kind == ast.KindScalar && c.Scalar.ScalarKind == t.Scalar.ScalarKind && c.Scalar.Value != nil && t.Scalar.Value == nil
+//@ func (*DisjunctionWithConstantToDefault).processDisjunction
+//@   property C10
+//@   requires pass != nil && def.Kind == ast.KindDisjunction
+//@   modifies spare-capacity
+//@   ensures  noerr: result.1 == nil
+//@   ensures  first: old(len(def.Disjunction.Branches) == 2 && constantAndType(def.Disjunction.Branches[0], def.Disjunction.Branches[1])) ==> result.0.Default == old(def.Disjunction.Branches[0].Scalar.Value) && result.0.Kind == ast.KindScalar && result.0.Scalar == old(def.Disjunction.Branches[1].Scalar) && result.0.Nullable == old(def.Disjunction.Branches[1].Nullable)
+//@   ensures  second: old(len(def.Disjunction.Branches) == 2 && constantAndType(def.Disjunction.Branches[1], def.Disjunction.Branches[0])) ==> result.0.Default == old(def.Disjunction.Branches[1].Scalar.Value) && result.0.Kind == ast.KindScalar && result.0.Scalar == old(def.Disjunction.Branches[0].Scalar) && result.0.Nullable == old(def.Disjunction.Branches[0].Nullable)
+//@   ensures  other: !old(len(def.Disjunction.Branches) == 2 && (constantAndType(def.Disjunction.Branches[0], def.Disjunction.Branches[1]) || constantAndType(def.Disjunction.Branches[1], def.Disjunction.Branches[0]))) ==> result.0 == def
